@@ -682,6 +682,10 @@ def floor_cells(tier):
         # size of the rounding of K** - K*x (K + s I)^-1 Kx*, so the raw value may be negative)
         for noise in ([1e-8, 1e-12] if fam.startswith("tiny") else [None]):
             out.append({"what": "variance-floor", "fam": fam, "min_variance": mv, "fast_pred_var": fpv, "geometry": geom, "noise": noise})
+            if mv is not None and not fpv:
+                # the floor is a property of the reported variance, not of the data checks that settings.debug switches off
+                out.append({"what": "variance-floor", "fam": fam, "min_variance": mv, "fast_pred_var": fpv, "geometry": geom, "noise": noise,
+                            "debug": False})
     return out
 
 
@@ -716,7 +720,7 @@ def run_floor(cell, seed, fails, feats):
         Xs = test_points(g, geom, X, 1)
         want = settings.min_variance.value(F64) if mv is None else mv
         ctx = settings.min_variance(double_value=mv) if mv is not None else contextlib.nullcontext()
-        with ctx, settings.fast_pred_var(fpv):
+        with ctx, settings.fast_pred_var(fpv), (settings.debug(False) if cell.get("debug") is False else contextlib.nullcontext()):
             with fails.guard("posterior-variance"):
                 torch.manual_seed(util.seed_for(seed, "c07|lanczos"))
                 with warnings.catch_warnings():
